@@ -164,10 +164,19 @@ func runHistory(h *simrt.History, emit func(*simrt.CallResult)) {
 			for _, e := range w.Events {
 				if e.Done {
 					res.EventsDone++
+				} else if e.Kind == "write" {
+					// the other process finishes its edit after the call: the state of the
+					// world after a step never depends on how many I/O calls the step made
+					w.Put(e.Path, false, e.Data)
+					e.Done = true
 				}
 			}
 		case "write":
-			w.Put(st.File, false, st.Data)
+			if st.KeepMtime {
+				w.PutKeepMtime(st.File, st.Data)
+			} else {
+				w.Put(st.File, false, st.Data)
+			}
 			res.Kind = "ok"
 		case "remove":
 			w.Del(st.File)
